@@ -95,7 +95,7 @@ Definition k_codec_INT : Z := 2.
 (* tars/protocol/codec/codec.go: func Buffer.WriteInt32 *)
 Definition tr_WriteInt32 (data : Z) (tag : Z) (out : list N) : ctl (list N) (list N * bool) :=
   let err : bool := false in
-    bindc (if (if (k_math_MinInt16 <? data) then (data <=? k_math_MaxInt16) else false)
+    bindc (if (if (k_math_MinInt16 <=? data) then (data <=? k_math_MaxInt16) else false)
       then go_call (tr_WriteInt16 (wrapS 16 data) tag out) (fun r__ => let '(out, err) := r__ in
         bindc (if (negb (Bool.eqb err false))
           then Return (out, err)
